@@ -38,24 +38,26 @@ func (ps *pubsub) Emit(key string) {
 	}
 }
 
-func (ps *pubsub) Wait(key string) {
-	select {
-	case <-ps.ctx.Done():
-		return
-	default:
-	}
-
+// Wait blocks until 'key' is emitted or the pubsub's context is canceled. Returns true if key was emitted.
+func (ps *pubsub) Wait(key string) (emitted bool) {
 	ps.mu.Lock()
 	if ps.visited[key] {
 		ps.mu.Unlock()
-		return
+		return true
+	}
+	select {
+	case <-ps.ctx.Done():
+		ps.mu.Unlock()
+		return false
+	default:
 	}
 	ctx, cancel := context.WithCancel(ps.ctx)
 	ps.subscribers[key] = append(ps.subscribers[key], cancel)
 	ps.mu.Unlock()
 
-	select {
-	case <-ps.ctx.Done():
-	case <-ctx.Done():
-	}
+	<-ctx.Done()
+	ps.mu.RLock()
+	emitted = ps.visited[key]
+	ps.mu.RUnlock()
+	return emitted
 }
